@@ -156,6 +156,8 @@ def check_walk(ctx, w):
     min_const = None
     for conds, res, p in adv:
         if res[0] != 'delta':
+            if res[1] == 'raise' and isinstance(p.end[1], ast.Assert):
+                continue        # the failure branch of an assertion is not a way the walk leaves a well-formed section
             ctx.ob('I-ADV', f.construct, 'loop path ends by %s' % (res[1],), False, msg='note loop has an exit/absolute jump inside the body', got=res)
             continue
         n_paths += 1
